@@ -59,6 +59,9 @@ def run_variant(args):
         shutil.rmtree(tmp, ignore_errors=True)
 
 
+EXPECT_UNDECIDED = {}
+
+
 def jobs_for(props, all_props):
     jobs = []
     for vid, rel, old, new in corpus.REWRITES:
@@ -70,6 +73,10 @@ def jobs_for(props, all_props):
             pf = os.path.join(rdir, d, 'patch.diff')
             if os.path.exists(pf):
                 jobs.append((f'rw-patch-{d}', [('@patch', pf)], list(props)))
+                ef = os.path.join(rdir, d, 'expect.json')
+                if os.path.exists(ef):
+                    import json
+                    EXPECT_UNDECIDED[f'rw-patch-{d}'] = set(json.load(open(ef)).get('undecided', []))
     for vid, rel, old, new, expect in corpus.MUTANTS:
         ps = [p for p in expect if p in props]
         if ps:
@@ -104,6 +111,8 @@ def run(prop, mod=None, workers=None):
                 tally['rewrites_run'] += 1
                 if code == 0:
                     tally['rewrites_silent'] += 1
+                elif code == 2 and p in EXPECT_UNDECIDED.get(vid, ()):
+                    tally['rewrites_undecided_documented'] = tally.get('rewrites_undecided_documented', 0) + 1
                 else:
                     failures.append(f'equivalent rewrite {vid} makes {p} exit {code}: {first}')
             detail.append({'variant': vid, 'property': p, 'exit': code, 'first': first})
